@@ -348,11 +348,14 @@ End Tokens.
 (* enough for every token list (Proofs/ParserTotal.v) *)
 Definition parse_fuel (ts : list token) : nat := S (S (2 * length ts)).
 
-(* Parser.Parse *)
-Definition parse (e : bytes) : outcome node :=
-  ts <- tokenize e ;;
+(* Parser.Parse, after the lexer *)
+Definition parse_tokens (ts : list token) : outcome node :=
   '(parsed, i) <- parseExpression ts (parse_fuel ts) (bp_of site_Parse_parseExpression tUnknown 0) 0 ;;
   c <- current ts i ;;
   if negb (tok_eqb c tEOF) then syntaxError ts i else Ok parsed.
+
+(* Parser.Parse *)
+Definition parse (e : bytes) : outcome node :=
+  ts <- tokenize e ;; parse_tokens ts.
 
 End WithNum.
